@@ -60,7 +60,9 @@ def structure_contract(col, rule, rkw, tname, tf, grid):
         lo_d, hi_d = grid.domain
         x = grid.points
         h = 1e-6 * np.maximum(1.0, np.abs(x))
-        inner = fin & (x - 2 * h > lo_d) & ((x + 2 * h < hi_d) if np.isfinite(hi_d) else True)
+        # the five-point formula has relative truncation error ~ (h / distance to the nearest singular end)^4: keep to nodes at least 100 h away
+        # from both ends of the domain (the map may have a pole there); the proof layer covers every x
+        inner = fin & (x - 100 * h > lo_d) & ((x + 100 * h < hi_d) if np.isfinite(hi_d) else True)
         if tname == "HyperbolicRTransform" or x.dtype.kind in "iu":
             inner = np.zeros_like(fin)
         if np.any(inner):
@@ -89,6 +91,16 @@ def structure_contract(col, rule, rkw, tname, tf, grid):
     ok = col.check(cid, chk, inputs=inp, sample=inp)
     if not ok and tname == "HyperbolicRTransform" and "domain (0.0, nan)" in (col.last_failure["detail"] or ""):
         col.last_failure["case_id"] = cid + ":known-nan-domain-end"
+    if not ok and "should not be above domain" in (col.last_failure["detail"] or ""):
+        # signature of the recorded finding: an infinite domain end was replaced by 1e16 (trim_inf) and a finite node is mapped beyond it
+        try:
+            with np.errstate(all="ignore"):
+                mapped = np.asarray(tf.transform(grid.points), dtype=float)
+                ends = np.asarray(tf.transform(np.array(grid.domain, dtype=float)), dtype=float)
+            if np.max(np.abs(ends)) == 1e16 and np.any(np.isfinite(mapped) & (np.abs(mapped) > 1e16)):
+                col.last_failure["case_id"] = cid + ":known-finite-node-beyond-trimmed-infinity"
+        except Exception:  # noqa: BLE001
+            pass
     if not ok and decreasing:
         # signature of the recorded finding: weights are exactly deriv * w (signed Jacobian) for a decreasing map
         try:
